@@ -100,6 +100,58 @@ def rule_tables():
     return out
 
 
+def rule_any_atoms():
+    """{(table name, index): pattern atoms the rule declares as shareable wildcard atoms}"""
+    from chython.algorithms.standardize._groups import single_rules, double_rules
+    from chython.algorithms.standardize._metal_organics import rules as metal_rules
+    return {(name, i): tuple(r[3]) for name, tab in (('double', double_rules), ('single', single_rules), ('metal', metal_rules))
+            for i, r in enumerate(tab)}
+
+
+def twin_instance(q, inst, any_atoms, atom_fix, bonds_fix):
+    """two instances of one rule that share the rule's wildcard atom X (geminal groups): the group part (pattern atoms other than the
+    wildcard atoms, with their substituents) is duplicated with fresh numbers and bonded to X as the first one is.  Returns
+    (molecule, atom_fix, bonds_fix of both groups) or None when the pattern has no single shared atom / the copy cannot be attached."""
+    if len(any_atoms) != 1:
+        return None
+    x = any_atoms[0]
+    patt = set(dict(q.atoms()))
+    group = patt - {x}
+    if not group or x not in inst._bonds:
+        return None
+    # atoms that hang on the group (substituents added by instantiate), not on X
+    side, stack = set(group), list(group)
+    while stack:
+        n = stack.pop()
+        for k in inst._bonds[n]:
+            if k != x and k not in side:
+                side.add(k)
+                stack.append(k)
+    if any(k in side for k in inst._bonds[x] if k not in group):      # X's own substituents reach the group: ring, no clean copy
+        return None
+    m = inst.copy()
+    shift = max(m._atoms) + 1
+    mp = {n: n + shift for n in side}
+    for n in side:
+        a = inst._atoms[n]
+        m.add_atom(type(a)(a.isotope, charge=a.charge, is_radical=a.is_radical), mp[n], _skip_calculation=True)
+    done = set()
+    for n in side:
+        for k, b in inst._bonds[n].items():
+            e = frozenset((n, k))
+            if e in done:
+                continue
+            done.add(e)
+            m.add_bond(mp[n], x if k == x else mp[k], b.order, _skip_calculation=True)
+    m.fix_structure()
+    af = dict(atom_fix)
+    af.update({mp[n]: v for n, v in atom_fix.items() if n in mp})
+    bf = list(bonds_fix) + [(mp.get(n, n), mp.get(k, k), o) for n, k, o in bonds_fix if n in mp or k in mp]
+    if any(n == x for n in atom_fix):
+        return None          # the rule edits the shared atom itself: two applications do not commute, not a clean twin
+    return m, af, bf
+
+
 _SUBST = (('C', 1), ('O', 1), ('C', 2), ('O', 2), ('N', 1), ('N', 3), ('F', 1), ('N', 2))
 
 
